@@ -185,6 +185,14 @@ def alphabet(w):
     if head.path + ('e',) not in stored_paths:
         g = uni.get(head.path + ('e', 'e'))
         out.append(('orphan', g.block, max(now, g.ts), None, 'orphan', g))
+    # a body-tampered copy (same header, hence same id) of a valid block, and that valid block delivered too early
+    V = uni.get(head.path + ('e',))
+    if V is not None and V.path not in stored_paths:
+        from skepticoin.datatypes import Block
+        cb = V.block.transactions[0]
+        cb2 = world.coinbase_tx(V.height, [(o.value, o.public_key) for o in cb.outputs], b'tampered')
+        out.append(('broken-tampered-body-same-id-as-valid-e', Block(V.block.header, [cb2]), max(now, V.ts), head, 'broken', None))
+        out.append(('broken-valid-e-delivered-31s-early', V.block, V.ts - 31, head, 'broken', None))
     # broken blocks on the head, one per rule the validator distinguishes
     pick = {
         'C05': ['id-not-below-target', 'time-far-future', 'target-minus-1', 'time-equals-parent', 'height-parent+0-reward-matching',
@@ -222,17 +230,32 @@ def alphabet(w):
 _cand_cache = {}
 
 
-def execute(trace, check_last=True):
+def execute(trace, check_last=True, baseline=False):
     """replays a trace (list of event names) on a fresh world.  returns (world, violations, last outcome)"""
     w = World()
+    w.entered_log = []
     bad = []
     outcome = None
+    entered_log = []
     try:
         for i, ev in enumerate(trace):
             al = {e[0]: e for e in alphabet(w)}
             if ev not in al:
                 return w, None, None
             outcome = step(w, al[ev], bad, trace[:i + 1])
+            entered_log.append(outcome[0] == 'entered')
+            w.entered_log = list(entered_log)
+        # "rejected deliveries leave no trace": a reference-valid, new block with a stored parent that is NOT accepted here
+        # must also not be accepted by a node that received only the accepted deliveries of this sequence
+        if trace and not baseline and outcome == ('not-entered', 'ref-valid'):
+            kept = tuple(ev for ev, ent in zip(trace[:-1], entered_log[:-1]) if ent) + (trace[-1],)
+            if kept != tuple(trace):
+                w2, bad2, out2 = execute(kept, baseline=True)
+                w2.close()
+                if out2 is not None and out2[0] == 'entered':
+                    dropped = [ev for ev, ent in zip(trace[:-1], entered_log[:-1]) if not ent]
+                    bad.append(('rejected-delivery-impairs-later-block', "valid block '%s' is not accepted after the rejected "
+                                "deliveries %s, but is accepted by a node that never saw them" % (trace[-1], dropped), tuple(trace)))
         return w, bad, outcome
     except Exception:
         w.close()
@@ -295,7 +318,8 @@ def step(w, event, bad, trace):
 def closing_check(w, bad, trace):
     """a fresh valid block on the head must still get stored"""
     head = w.fc.head()
-    for lab in ('y', 'x', 'e'):
+    # (preferably the block 'e' on the head: the one whose tampered / premature copies are in the alphabet)
+    for lab in ('e', 'y', 'x'):
         n = w.uni.get(head.path + (lab,))
         if n is not None and n.path not in w.stored:
             break
@@ -307,7 +331,24 @@ def closing_check(w, bad, trace):
         bad.append(('later-block-not-stored', "after the sequence a fresh valid block is accepted into state but not written to the "
                     "store (write buffer holds %d blocks)" % len(s['buffer']), trace + ('closing-valid',)))
     elif n.bid not in s['state_ids']:
-        # acceptance of valid blocks is not what C09 states; record only
+        # acceptance of valid blocks as such is not what C09 states - but rejected deliveries must leave no trace: a node
+        # that received only the accepted deliveries of this sequence must not behave differently
+        if not getattr(w, 'is_baseline', False):
+            kept = tuple(ev for ev, ent in zip(trace, w.entered_log) if ent)
+            if kept != tuple(trace):
+                wb, bb, ob = execute(kept, baseline=True)
+                if bb is not None:
+                    wb.is_baseline = True
+                    cb = []
+                    rb = closing_check(wb, cb, kept)
+                    wb.close()
+                    if rb == 'closing-stored':
+                        dropped = [ev for ev, ent in zip(trace, w.entered_log) if not ent]
+                        bad.append(('rejected-delivery-impairs-later-block', "a fresh valid block on the head is not accepted after "
+                                    "the rejected deliveries %s, but is accepted and stored by a node that never saw them" % dropped,
+                                    trace + ('closing-valid',)))
+                else:
+                    wb.close()
         return 'closing-not-accepted'
     if w.net.escaped:
         bad.append(('exception-escaped', "closing delivery: %s" % (w.net.escaped[0],), trace + ('closing-valid',)))
